@@ -97,6 +97,8 @@ type c18Pool struct {
 	intact      []bool // an unfaulted corpus file: the only kind the real vec back end is given
 	pals        []*[64]color.RGBA
 	progs       [][]world.Op
+	sheet       *image.RGBA // a sprite sheet: some real-rasteriser pipelines draw into their own cell (a SubImage) of it
+	nextCell    int
 	arena       int              // index of a file that is the front part of a larger array whose rest belongs to a loader task (-1: none)
 	loaderTaken bool             // at most one loader per case
 	grad        *render.Gradient // an initialised gradient shared as a read-only image source
@@ -213,6 +215,7 @@ func c18BuildPool(ctx *Ctx, t *tape.Tape) *c18Pool {
 	// belong to somebody else (a loader appending the next item), who writes
 	// them while the file is being read. Its spare capacity is therefore not
 	// watched by hash; the race arm watches it instead.
+	p.sheet = image.NewRGBA(image.Rect(0, 0, 40, 4*40))
 	p.arena = -1
 	if t.Bool() {
 		p.arena = t.Intn(len(p.files))
@@ -421,6 +424,33 @@ func c18MakeTask(t *tape.Tape, p *c18Pool) c18Task {
 			}}
 		}
 		w, h := 8+t.Intn(40), 8+t.Intn(40)
+		if p.nextCell < 4 && t.Bool() {
+			// this pipeline's destination is its own cell of the shared sprite
+			// sheet: a distinct image object over a disjoint part of one pixel
+			// buffer (nobody else touches this cell; it clears it itself)
+			cell := image.Rect(0, 40*p.nextCell, 40, 40*p.nextCell+40)
+			p.nextCell++
+			sheet := p.sheet
+			return c18Task{name: fmt.Sprintf("decode->Renderer->vec.Rasterizer into cell %v of a shared sprite sheet", cell) + suffix, run: func() string {
+				img := sheet.SubImage(cell).(*image.RGBA)
+				for y := cell.Min.Y; y < cell.Max.Y; y++ {
+					row := sheet.Pix[sheet.PixOffset(cell.Min.X, y):sheet.PixOffset(cell.Max.X, y)]
+					for i := range row {
+						row[i] = 0
+					}
+				}
+				vz := vec.NewRasterizer(img)
+				tz := &world.TameRaster{Rasterizer: vz, Limit: 50000}
+				var r render.Renderer
+				r.SetRasterizer(tz, img.Bounds())
+				err := decode.Decode(&r, src)
+				hh := uint64(3)
+				for y := cell.Min.Y; y < cell.Max.Y; y++ {
+					hh = fnvAdd(hh, fnv(sheet.Pix[sheet.PixOffset(cell.Min.X, y):sheet.PixOffset(cell.Max.X, y)]))
+				}
+				return fmt.Sprintf("err=%s cell pixels %016x segments %016x", errText(err), hh, tz.Hash)
+			}}
+		}
 		return c18Task{name: fmt.Sprintf("decode->Renderer->vec.Rasterizer %dx%d", w, h) + suffix, run: func() string {
 			img := image.NewRGBA(image.Rect(0, 0, w, h))
 			vz := vec.NewRasterizer(img)
